@@ -29,7 +29,7 @@ for p in props:
         c=claimed[i]
         checks.append({"property_id":i,
           "quick_cmd":f"bin/lvc check -p {i} -tier quick",
-          "thorough_cmd":f"bin/lvc check -p {i} -tier thorough",
+          "thorough_cmd":f"tools/thorough.sh {i}",
           "evidence_file":f"/verif/evidence/{i}.json",
           "replay_cmd_template":"bin/lvc replay {path}",
           "engine":"lvc",
